@@ -11,7 +11,7 @@ from vfw.core import Violation
 from vfw.model import stencil as M
 
 PROPERTY = "C20"
-SIZES = {"quick": 2400, "thorough": 80000}
+SIZES = {"quick": 6000, "thorough": 80000}
 RULE = (
     "Hypothesis draws a scenario from the shared corpus (simple grids with metrics, face-connected grids, multi-axis grid "
     "ufuncs, transform), one of its calls, and one applicable single edit: axis the grid lacks; data lacking the axis' "
@@ -67,6 +67,8 @@ def applicable_edits(sc, call):
         edits.append("axis-missing")
     if fn == "pad" and isinstance(call.get("da"), str):
         edits += ["boundary-unknown", "fill-nonnumeric"]
+    if fn == "pad":
+        edits.append("axis-missing")
     if sc.get("grid") and gcoords and fn != "equivalent":
         edits += ["grid-boundary-unknown", "grid-fill-nonnumeric", "grid-position-unknown", "grid-dim-missing"]
     if fn == "transform":
@@ -74,20 +76,50 @@ def applicable_edits(sc, call):
         if call.get("method") == "conservative":
             edits += ["bins-nonmonotonic", "bins-constant", "no-outer"]
     if fn == "ufunc":
-        edits += ["ufunc-wrong-position", "ufunc-extra-input", "ufunc-axis-entries", "ufunc-axes-per-entry", "axis-missing"]
+        edits += ["ufunc-wrong-position", "ufunc-extra-input", "ufunc-axis-entries", "ufunc-axes-per-entry", "axis-missing", "ufunc-data-two-dims"]
     return edits
+
+
+# every edit class, grouped by the kind of scenario that can host it.  The class is drawn first and the scenario after it:
+# drawing the scenario first left the classes that only one family hosts (the conservative-bins edits) with a handful of
+# cases per run.
+EDIT_GROUPS = {
+    "conservative": ["bins-nonmonotonic", "bins-constant", "no-outer"],
+    "transform": ["transform-periodic"],
+    "ufunc": ["ufunc-wrong-position", "ufunc-extra-input", "ufunc-axis-entries", "ufunc-axes-per-entry", "ufunc-data-two-dims"],
+    "stencil": ["to-same", "to-missing", "to-face-to-face", "to-unknown-word", "boundary-unknown", "fill-nonnumeric", "fill-object",
+                "data-lacks-dim", "data-two-dims"],
+    "any": ["axis-missing", "grid-boundary-unknown", "grid-fill-nonnumeric", "grid-position-unknown", "grid-dim-missing"],
+}
+ALL_EDITS = [(g, e) for g, es in EDIT_GROUPS.items() for e in es]
+
+
+def _family_for(group):
+    if group == "conservative":
+        return scen_gen.transform_family(kind="conservative")
+    if group == "transform":
+        return scen_gen.transform_family()
+    if group == "ufunc":
+        return scen_gen.ufunc_family()
+    if group == "stencil":
+        return st.one_of(scen_gen.simple_family(2), scen_gen.simple_family(2), scen_gen.faces_family(2))
+    return st.one_of(scen_gen.simple_family(2), scen_gen.simple_family(2), scen_gen.faces_family(2), scen_gen.ufunc_family(),
+                     scen_gen.transform_family())
 
 
 @st.composite
 def strategy_impl(draw, tier):
-    sc = draw(st.one_of(scen_gen.simple_family(2), scen_gen.simple_family(2), scen_gen.faces_family(2), scen_gen.ufunc_family(),
-                        scen_gen.transform_family()))
-    idx = draw(st.integers(0, len(sc["calls"]) - 1))
-    edits = applicable_edits(sc, sc["calls"][idx])
-    if not edits:
-        edits = ["none"]
-    # a drawn permutation first: sampled_from alone favours the first entries of the list
-    edit = draw(st.permutations(edits))[0]
+    # (a drawn permutation first: sampled_from alone favours the first entries of the list)
+    group, want = ALL_EDITS[draw(st.permutations(range(len(ALL_EDITS))))[0]]
+    sc = draw(_family_for(group))
+    hosts = [i for i, c in enumerate(sc["calls"]) if want in applicable_edits(sc, c)]
+    if hosts:
+        idx = hosts[draw(st.integers(0, len(hosts) - 1))]
+        edit = want
+    else:
+        idx = draw(st.integers(0, len(sc["calls"]) - 1))
+        edits = applicable_edits(sc, sc["calls"][idx]) or ["none"]
+        edit = draw(st.permutations(edits))[0]
     return {"scenario": sc, "call": idx, "edit": edit, "pick": draw(st.integers(0, 23))}
 
 
@@ -301,6 +333,9 @@ def prepare(case):
             c["axis"] = [["NOAXIS"] + list(c["axis"][0][1:])]
         elif fn == "transform":
             c["axis"] = "NOAXIS"
+        elif fn == "pad":
+            # an axis the grid lacks among the widths: besides the others, or as the only one
+            c["widths"] = dict(c["widths"] if k % 2 else {}, NOAXIS=[1, 0] if k % 3 else [1, 1])
         elif isinstance(c["axis"], str):
             c["axis"] = "NOAXIS"
         else:
@@ -434,6 +469,11 @@ def prepare(case):
                     vals[1], vals[-1] = vals[-1], vals[1]
                     if strictly_monotonic(vals):
                         vals[1] = vals[0]
+        if edit == "bins-nonmonotonic" and (k // 3) % 3 != 0:
+            # the type of the edges is free as well: the same disorder written in whole numbers (ranks), signed or unsigned
+            order = sorted(set(vals))
+            vals = [order.index(v) for v in vals]
+            c["target_dtype"] = "uint8" if (k // 3) % 3 == 1 else "int64"
         if isinstance(t, dict):
             c["target"] = dict(t, values=vals)
         else:
@@ -454,6 +494,24 @@ def prepare(case):
             for pair in arg:
                 if pair[0] == d:
                     pair[1] = pick(others, k)
+    elif edit == "ufunc-data-two-dims":
+        # the first input gets a second dimension of one of its own axes (another position of that axis)
+        import numpy as np
+
+        sig = c["sig"]
+        j = k % len(sig["in"][0])
+        d, p = sig["in"][0][j]
+        real = c["axis"][0][j]
+        others = [q for q in gcoords[real] if q != p]
+        if not others:
+            return None
+        d2 = gcoords[real][pick(others, k // 2)]
+        src = ed["arrays"][c["das"][0]]
+        if d2 in src["dims"] or sc["dims"][d2] < 1:
+            return None
+        vals = np.asarray(src["values"], dtype=float)
+        ed["arrays"]["BAD"] = {"dims": [d2] + list(src["dims"]), "values": np.stack([vals] * sc["dims"][d2]).tolist(), "name": None}
+        c["das"] = ["BAD"] + list(c["das"][1:])
     elif edit == "ufunc-extra-input":
         c["das"] = list(c["das"]) + [c["das"][0]]
     elif edit == "ufunc-axis-entries":
